@@ -953,6 +953,14 @@ func (hash *SexpHash) ShortName() string {
 }
 
 func (hash *SexpHash) SexpString(ps *PrintState) string {
+	ps, ok := ps.enter(hash)
+	if !ok {
+		if hash.TypeName == "hash" {
+			return "{...}"
+		}
+		return " (" + hash.TypeName + " ...)"
+	}
+	defer ps.leave(hash)
 	indInner := ""
 	indent := ps.GetIndent()
 	innerPs := ps.AddIndent(4) // generates a fresh new PrintState
